@@ -78,6 +78,19 @@ FirstRows(in, out) ==
 \* has-more exactly when rows beyond the limit exist
 HasMoreExact(in, out) == out.more <=> (Cardinality(WindowKeys(in)) > Lim(in))
 
+-------------------------------------------------------------------------------
+(* The clauses determine the output: SpecOut(in) is the only output that conforms (TLC checks
+   FinalIsSpecOut in TableAssembly and ConformsSpecOut in TablePaging). *)
+SortSeq(S, desc) == [i \in 1..Cardinality(S) |->
+                       CHOOSE k \in S : Cardinality({j \in S : Before(j, k, desc)}) = i - 1]
+SpecOut(in) ==
+    LET srt == SortSeq(WindowKeys(in), in.desc)
+        n   == IF Lim(in) < Len(srt) THEN Lim(in) ELSE Len(srt)
+    IN [rows |-> [i \in 1..n |->
+                    [k |-> srt[i],
+                     d |-> [c \in 1..NCols(in) |-> IF srt[i] \in in.st[WhatOfCol(in, c)] THEN c ELSE 0]]],
+        more |-> Len(srt) > Lim(in)]
+
 Conforms(in, out) == /\ Aligned(in, out) /\ Unique(out) /\ Ordered(in, out)
                      /\ WindowRespected(in, out) /\ LimitRespected(in, out)
                      /\ FirstRows(in, out) /\ HasMoreExact(in, out)
